@@ -796,6 +796,20 @@ theorem caddyfile_argument_loops_have_fuel_to_spare (d : Disp) (more : Nat) :
     segArgs (d.toks.length + 2) d = segArgs (d.toks.length + 2 + more) d :=
   ⟨remainingArgs_fuel _ _ d (by omega) (by omega), segArgs_fuel _ _ d (by omega) (by omega)⟩
 
+/-- a policy without options (random, least_conn, round_robin, first, ip_hash, client_ip_hash,
+    uri_hash) written alone is that policy; with anything behind it on the line it is an error -/
+theorem caddyfile_simple_policy (dur : Bytes → Option Int) (fuel l k : Nat) (name a : Bytes)
+    (hk : simpleKind name = some k) (ha : a ≠ lbrace) :
+    parseSel dur (fuel + 1) [⟨name, l⟩] = .ok [.simple k] ∧
+    parseSel dur (fuel + 1) [⟨name, l⟩, ⟨a, l⟩] = .err :=
+  ⟨parseSel_simple_alone dur fuel l k name hk, parseSel_simple_with_argument dur fuel l k name a hk ha⟩
+
+/-- `header <field>`: the field name is configured verbatim (no case folding: `Host` and `host`
+    stay different, see `header_key`), without a fallback (`Provision` supplies random) -/
+theorem caddyfile_header_field_verbatim (dur : Bytes → Option Int) (fuel l : Nat) (F : Bytes) (hF : F ≠ lbrace) :
+    parseSel dur (fuel + 1) [⟨str "header", l⟩, ⟨F, l⟩] = .ok [.header F] :=
+  parseSel_header_field dur fuel l F hF
+
 /-- a second `fallback` in the block of a query / header / cookie policy is an error — the fallback
     in force is never silently replaced -/
 theorem caddyfile_second_fallback_rejected (dur : Bytes → Option Int) (cookie : Bool) (lf : List Tok → CfRes)
